@@ -51,18 +51,23 @@ struct Cube {
     free: Vec<usize>,
     /// free position of a label, if it is free
     pos: BTreeMap<usize, usize>,
-    /// base assignments (bit v = value of variable v), for up to 32 variables
-    base: [u32; NB],
+    /// base assignments, one bit per *slot*
+    base: [u128; NB],
+    /// label -> slot (< 128) for every variable that operations may mention; 255 = never mentioned.
+    /// Up to 120 variables every label has its own slot; beyond that only a chosen set of labels is used.
+    slot: Vec<u8>,
+    /// the labels that have a slot
+    used: Vec<usize>,
 }
 
 impl Cube {
-    fn assignment(&self, b: usize, idx: u32) -> u32 {
+    fn assignment(&self, b: usize, idx: u32) -> u128 {
         let mut a = self.base[b];
         for (j, v) in self.free.iter().enumerate() {
             if (idx >> j) & 1 == 1 {
-                a |= 1 << v;
+                a |= 1u128 << self.slot[*v];
             } else {
-                a &= !(1 << v);
+                a &= !(1u128 << self.slot[*v]);
             }
         }
         a
@@ -73,7 +78,7 @@ impl Cube {
             None => {
                 let mut m = [tt::FALSE; NB];
                 for (b, x) in m.iter_mut().enumerate() {
-                    *x = if ((self.base[b] >> v) & 1 == 1) == pol { tt::TRUE } else { tt::FALSE };
+                    *x = if ((self.base[b] >> self.slot[v]) & 1 == 1) == pol { tt::TRUE } else { tt::FALSE };
                 }
                 m
             }
@@ -87,7 +92,7 @@ impl Cube {
             let mut t: TT = 0;
             for idx in 0..(1u32 << nfree) {
                 let a = self.assignment(b, idx);
-                let v = if through_accessors { eval_acc(p, a) } else { eval_raw(p, a) };
+                let v = if through_accessors { eval_acc(p, a, &self.slot) } else { eval_raw(p, a, &self.slot) };
                 if v {
                     t |= 1u128 << idx;
                 }
@@ -104,21 +109,21 @@ impl Cube {
     }
 }
 
-fn eval_raw(mut p: Ptr, asg: u32) -> bool {
+fn eval_raw(mut p: Ptr, asg: u128, slot: &[u8]) -> bool {
     let mut neg = false;
     loop {
         match p {
             BddPtr::PtrTrue => return !neg,
             BddPtr::PtrFalse => return neg,
-            BddPtr::Reg(n) => p = if (asg >> n.var.value()) & 1 == 1 { n.high } else { n.low },
+            BddPtr::Reg(n) => p = if (asg >> (slot[n.var.value_usize()] & 127)) & 1 == 1 { n.high } else { n.low },
             BddPtr::Compl(n) => {
                 neg = !neg;
-                p = if (asg >> n.var.value()) & 1 == 1 { n.high } else { n.low };
+                p = if (asg >> (slot[n.var.value_usize()] & 127)) & 1 == 1 { n.high } else { n.low };
             }
         }
     }
 }
-fn eval_acc(mut p: Ptr, asg: u32) -> bool {
+fn eval_acc(mut p: Ptr, asg: u128, slot: &[u8]) -> bool {
     loop {
         if p.is_true() {
             return true;
@@ -126,10 +131,12 @@ fn eval_acc(mut p: Ptr, asg: u32) -> bool {
         if p.is_false() {
             return false;
         }
-        let v = p.var_safe().unwrap().value();
-        p = if (asg >> v) & 1 == 1 { p.high() } else { p.low() };
+        let v = p.var_safe().unwrap().value_usize();
+        p = if (asg >> (slot[v] & 127)) & 1 == 1 { p.high() } else { p.low() };
     }
 }
+
+use crate::worlds::bdd::{list_items, LIST_LENS};
 
 #[derive(Clone, Copy)]
 struct Resolved {
@@ -138,6 +145,7 @@ struct Resolved {
     label: usize,
     flag: bool,
     bits: (u32, u32),
+    list_len: usize,
     result: Option<usize>,
 }
 
@@ -176,8 +184,8 @@ fn apply<T: IteTable<'static, Ptr> + Default + 'static>(b: &'static RobddBuilder
         }
         K_EXISTS => b.exists(g(0), l),
         K_COMPOSE => b.compose(g(0), l, g(1)),
-        K_ANDLST => b.and_lst(&[g(0), g(1), g(2)]),
-        K_ORLST => b.or_lst(&[g(0), g(1), g(2)]),
+        K_ANDLST => b.and_lst(&list_items(&r.x, r.list_len).iter().map(|i| pool[*i]).collect::<Vec<_>>()),
+        K_ORLST => b.or_lst(&list_items(&r.x, r.list_len).iter().map(|i| pool[*i]).collect::<Vec<_>>()),
         _ => unreachable!(),
     }
 }
@@ -213,10 +221,14 @@ fn model_of(r: &Resolved, ms: &[M], cube: &Cube) -> M {
             let j = cube.pos[&r.label];
             m_zip(g(0), g(1), |f, gg| tt::compose_doc(f, j, gg))
         }
-        K_ANDLST => m_zip3(g(0), g(1), g(2), |a, b, c| a & b & c),
-        K_ORLST => m_zip3(g(0), g(1), g(2), |a, b, c| a | b | c),
+        K_ANDLST => list_items(&r.x, r.list_len).iter().fold([tt::TRUE; NB], |a, i| m_zip(a, ms[*i], |x, y| x & y)),
+        K_ORLST => list_items(&r.x, r.list_len).iter().fold([tt::FALSE; NB], |a, i| m_zip(a, ms[*i], |x, y| x | y)),
         _ => unreachable!(),
     }
+}
+
+fn wide(r: &mut Rng) -> u128 {
+    ((r.next() as u128) << 64) | r.next() as u128
 }
 
 fn show(m: &M) -> String {
@@ -224,9 +236,11 @@ fn show(m: &M) -> String {
 }
 
 fn run<T: IteTable<'static, Ptr> + Default + 'static>(plan: &Plan, ctx: &mut Ctx) -> R {
-    let n0 = plan.get("nvars0").clamp(8, 28) as usize;
+    let n0 = plan.get("nvars0").clamp(8, 200_000) as usize;
     let mut perm: Vec<usize> = (0..n0).collect();
-    Rng::new(plan.get("order_seed") as u64).shuffle(&mut perm);
+    if plan.get_or("linear_order", 0) == 0 {
+        Rng::new(plan.get("order_seed") as u64).shuffle(&mut perm);
+    }
     let labels: Vec<VarLabel> = perm.iter().map(|v| VarLabel::new(*v as u64)).collect();
     let order = VarOrder::new(&labels);
     let b: &'static RobddBuilder<'static, T> = Box::leak(Box::new(RobddBuilder::<T>::new(order.clone())));
@@ -243,14 +257,52 @@ fn run<T: IteTable<'static, Ptr> + Default + 'static>(plan: &Plan, ctx: &mut Ctx
     };
     // the sampled sub-cube
     let mut cr = Rng::new(plan.get("cube_seed") as u64);
-    let mut vars: Vec<usize> = (0..n0).collect();
+    let mut slot: Vec<u8> = vec![255; n0 + 8];
+    let mut used: Vec<usize> = if n0 <= 120 {
+        (0..n0).collect()
+    } else {
+        // many variables: operations mention ~60 of them, chosen near the places where narrow integer
+        // types or bit-set words wrap (and pairs that collide modulo those sizes), plus random ones
+        let mut u: Vec<usize> = Vec::new();
+        for base in [0usize, 31, 63, 127, 255, 32767, 65535] {
+            for d in 0..3 {
+                u.push(base + d);
+            }
+        }
+        for _ in 0..8 {
+            let k = cr.below(n0 as u64) as usize;
+            u.push(k);
+            u.push(k + 256);
+            u.push(k + 65536);
+        }
+        for _ in 0..20 {
+            u.push(cr.below(n0 as u64) as usize);
+        }
+        u.retain(|v| *v < n0);
+        // the list above are *levels* (positions in the order): narrow level types collide there; use the
+        // variables that sit at those levels, plus the labels with the same numbers
+        let by_level: Vec<usize> = u.iter().map(|lvl| perm[*lvl]).collect();
+        u.truncate(30);
+        u.extend(by_level);
+        u.sort_unstable();
+        u.dedup();
+        u.truncate(100);
+        u
+    };
+    for (j, v) in used.iter().enumerate() {
+        slot[*v] = j as u8;
+    }
+    let mut vars: Vec<usize> = used.clone();
     cr.shuffle(&mut vars);
     let free: Vec<usize> = vars[..7].to_vec();
-    let cube = Cube {
+    let mut cube = Cube {
         pos: free.iter().enumerate().map(|(j, v)| (*v, j)).collect(),
         free,
-        base: [cr.next() as u32, cr.next() as u32, cr.next() as u32, cr.next() as u32],
+        base: [wide(&mut cr), wide(&mut cr), wide(&mut cr), wide(&mut cr)],
+        slot,
+        used: Vec::new(),
     };
+    cube.used = std::mem::take(&mut used);
 
     let mut pool: Vec<Ptr> = Vec::new();
     let mut twin_pool: Vec<Ptr> = Vec::new();
@@ -258,7 +310,7 @@ fn run<T: IteTable<'static, Ptr> + Default + 'static>(plan: &Plan, ctx: &mut Ctx
     let mut own: Vec<Vec<usize>> = vec![Vec::new(); 4];
     let mut history: Vec<Resolved> = Vec::new();
     let mut nvars_now = n0;
-    let max_vars = (n0 + 3).min(30);
+    let max_vars = n0 + if n0 <= 120 { 3.min(126usize.saturating_sub(n0)) } else { 3 };
     let mut shape_checked: BTreeSet<usize> = BTreeSet::new();
     let (mut sig_a, mut sig_b) = (BTreeMap::new(), BTreeMap::new());
     let mut nonconst = false;
@@ -294,10 +346,10 @@ fn run<T: IteTable<'static, Ptr> + Default + 'static>(plan: &Plan, ctx: &mut Ctx
         if matches!(kind, K_NEWVAR | K_NEWLABEL) && nvars_now >= max_vars {
             kind = K_VAR;
         }
-        let mut r = Resolved { kind, x: [0; 3], label: 0, flag: op.a[3] & 1 == 1, bits: (0, 0), result: None };
+        let mut r = Resolved { kind, x: [0; 3], label: 0, flag: op.a[3] & 1 == 1, bits: (0, 0), list_len: LIST_LENS[(op.a[3].unsigned_abs() as usize >> 1) % LIST_LENS.len()], result: None };
         let free_label = |a: i64| cube.free[a.unsigned_abs() as usize % cube.free.len()];
         match kind {
-            K_VAR => r.label = (op.a[0].unsigned_abs() as usize) % nvars_now,
+            K_VAR => r.label = cube.used[(op.a[0].unsigned_abs() as usize) % cube.used.len()],
             K_NEWVAR | K_NEWLABEL => r.label = nvars_now,
             K_CONST => {}
             K_NEG => r.x[0] = resolve(op.a[0], caller, &own, n),
@@ -371,6 +423,15 @@ fn run<T: IteTable<'static, Ptr> + Default + 'static>(plan: &Plan, ctx: &mut Ctx
             continue;
         }
 
+        if matches!(kind, K_NEWVAR | K_NEWLABEL) {
+            // the new label gets the next free slot before it is used
+            let s_new = cube.used.len() as u8;
+            while cube.slot.len() <= r.label {
+                cube.slot.push(255);
+            }
+            cube.slot[r.label] = s_new;
+            cube.used.push(r.label);
+        }
         let p = apply(b, &r, &pool, nvars_now, &cube);
         if matches!(kind, K_NEWVAR | K_NEWLABEL) {
             nvars_now += 1;
@@ -480,8 +541,13 @@ impl World for BddMidWorld {
         let mut o = Rng::stream(run_seed, "ops");
         let mut s = Rng::stream(run_seed, "schedule");
         let mut p = Rng::stream(run_seed, "placement");
-        cfg.insert("nvars0".into(), 8 + c.below(17) as i64);
+        // usually 8-24 variables; one run in four 33-100 (labels beyond the 32- and 64-bit word boundaries)
+        let many = c.below(4) == 0;
+        // one run in forty: tens of thousands of variables (levels beyond 2^15 and 2^16)
+        let huge = c.below(40) == 0;
+        cfg.insert("nvars0".into(), if huge { *c.pick(&[300i64, 33_000, 65_530, 65_540, 70_100, 131_080]) } else if many { 33 + c.below(68) as i64 } else { 8 + c.below(17) as i64 });
         cfg.insert("order_seed".into(), (c.next() >> 2) as i64);
+        cfg.insert("linear_order".into(), (c.below(6) == 0) as i64);
         cfg.insert("cube_seed".into(), (c.next() >> 2) as i64);
         let lossy = if target == "C16" { c.below(8) != 0 } else { c.bool() };
         cfg.insert("cache".into(), lossy as i64);
@@ -508,18 +574,19 @@ impl World for BddMidWorld {
         let mut ops = Vec::new();
         // start from literals of many different variables
         for _ in 0..(4 + c.below(8)) {
-            ops.push(Op { c: s.below(ncallers) as u8, k: K_VAR, a: [o.below(32) as i64, 0, 0, o.below(2) as i64] });
+            ops.push(Op { c: s.below(ncallers) as u8, k: K_VAR, a: [o.below(128) as i64, 0, 0, o.below(2) as i64] });
         }
         for _ in 0..len {
             let caller = s.below(ncallers) as u8;
             let k = o.weighted(&w) as u8;
             let a = match k {
-                K_VAR => [o.below(32) as i64, 0, 0, o.below(2) as i64],
+                K_VAR => [o.below(128) as i64, 0, 0, o.below(2) as i64],
                 K_NEWVAR | K_NEWLABEL | K_CONST => [0, 0, 0, o.below(2) as i64],
                 K_COND | K_EXISTS => [gen_operand(&mut o), o.below(8) as i64, 0, o.below(2) as i64],
                 K_COMPOSE => [gen_operand(&mut o), gen_operand(&mut o), o.below(8) as i64, 0],
                 K_CONDMODEL => [gen_operand(&mut o), o.below(128) as i64, o.below(128) as i64, 0],
                 K_REISSUE => [o.below(1 << 16) as i64, 0, 0, 0],
+                K_ANDLST | K_ORLST => [gen_operand(&mut o), gen_operand(&mut o), gen_operand(&mut o), (o.below(14) << 1) as i64],
                 _ => [gen_operand(&mut o), gen_operand(&mut o), gen_operand(&mut o), 0],
             };
             ops.push(Op { c: caller, k, a });
